@@ -5,6 +5,7 @@ import DimodProofs.SymStoreMore
 import DimodProofs.SymCmp
 import DimodProofs.SymGen
 import DimodProofs.SymView
+import Generated.SymFolds
 
 /-! # C06 — symbolic arithmetic on models is pointwise arithmetic on energies
 
@@ -680,5 +681,18 @@ theorem set_objective_of_view_expr (o : Bool) (a b r : Val) (x : Label → Rat) 
     | mdl m => exact ⟨m.toQM, rfl, rfl, by simpa [Val.eval, eval_toQM] using e⟩
     | num p => simp [Val.isQMObj] at c
     | view o' m => simp [Val.isQMObj] at c
+
+/-- **`quicksum` as read from the source** (`harness/translators/sym_folds.py` matches the body of `dimod.quicksum` statement by
+    statement and emits what an empty iterable returns, the in-place operator applied per further item, and that the first item
+    is deep-copied): the modelled `qsumVals` is exactly that fold — so `quicksum_eval` is a statement about the code's loop. -/
+theorem generated_quicksum (vs : List Val) :
+    Generated.quicksumDeepcopiesFirst = true ∧
+    qsumVals vs = (match vs with
+      | [] => .ok (.mdl Generated.quicksumEmpty)
+      | .view false _ :: _ => .error .type
+      | v :: rest => rest.foldlM Generated.quicksumStep v) := by
+  refine ⟨rfl, ?_⟩
+  unfold qsumVals Generated.quicksumEmpty Generated.quicksumStep
+  rfl
 
 end C06
